@@ -11,7 +11,7 @@
     inequality is proved by [interval].  Nothing is computed in Python. *)
 From Coq Require Import Reals Lra.
 From Interval Require Import Tactic.
-Require Import JF.Model.PotentialsR.
+Require Import JF.Model.PotentialsR JF.Model.CoulombBoundR.
 Open Scope R_scope.
 
 Lemma if_Rle_T (A : Type) a b (u v : A) : a <= b -> (if Rle_dec a b then u else v) = u.
@@ -30,7 +30,8 @@ Ltac unfold_leaves :=
   cbv beta iota zeta delta [ip_potential ip_derivative until_pos until_neg lj_pot lj_derivative lj_inv_in lj_r0
      dep_pot dep_derivative dep_inv_in mh_pot mh_inv_in mh_inv_out mh_r0 mh_r0sq lj_mexhat dep_mexhat
      xadd xdiv close_to sv_derivative sv_displacement dot3 cb_rate cb_derivative bend_derivative
-     ip_U lj_U dep_U rpath INR Nat.sub fst snd].
+     ip_U lj_U dep_U rpath INR Nat.sub fst snd
+     ipc_pot ipc_derivative ipc_per_lap ipc_laps_ok].
 Ltac itv := unfold_leaves; interval with (i_prec 90).
 
 Ltac step := match goal with
@@ -45,11 +46,13 @@ Ltac layer := first
   | unf mh_displacement | unf mh_behind_outside | unf mh_behind_inside
   | unf mh_front_inside | unf mh_front_outside
   | unf lj_inv_out | unf dep_inv_out
-  | unf hs_displacement | unf hd_displacement | unf cb_displacement | unf cb_rate ];
+  | unf hs_displacement | unf hd_displacement | unf cb_displacement | unf cb_rate
+  | unf ipc_displacement_laps | unf ipc_rest ];
   cbv beta iota delta [mh_pot mh_inv_in mh_inv_out mh_r0 mh_r0sq lj_mexhat dep_mexhat dot3].
 Ltac leaves t := eval cbv beta iota zeta delta [ip_potential ip_derivative until_pos until_neg lj_pot lj_derivative
      lj_inv_in lj_r0 dep_pot dep_derivative dep_inv_in mh_pot mh_inv_in mh_inv_out mh_r0 mh_r0sq lj_mexhat dep_mexhat
-     xadd xdiv close_to sv_derivative sv_displacement dot3 cb_rate cb_derivative INR Nat.sub] in t.
+     xadd xdiv close_to sv_derivative sv_displacement dot3 cb_rate cb_derivative INR Nat.sub
+     ipc_pot ipc_derivative ipc_per_lap] in t.
 Ltac let_step := match goal with
   | |- context [let y := ?e in _] =>
       let e' := leaves e in
@@ -62,3 +65,5 @@ Ltac resolve := repeat (first [step; cbv beta iota | let_step | layer]).
 Ltac close_case := resolve; itv.
 Ltac none_case := resolve; reflexivity.
 Ltac real_case := itv.
+Ltac ipc_laps_case := unfold_leaves; split; interval with (i_prec 90).
+Ltac ipc_close_case := close_case.
